@@ -5,7 +5,7 @@
 import os, sys
 sys.path.insert(0, os.path.join(os.environ.get("AIOFTP_REPO", "/repo"), "src"))
 OBLIGATION = 'aioftp.server:stor_worker@appe::stor_worker/exit:open-mode-is-wb-ab-or-r+b-exactly-when-restarting'
-MODEL = {'dc_accepted!39': True, 'restart_offset!10': 1, 'block_size!0': 1, 'chunk!70': '', 'wait_future_timeout!41': '0/1', 'rest!71': '', 'dc_accepted!38': True, 'dc_accepted!43': False, 'dc_accepted!35': False, 'dc_accepted!30': False, 'data_connection_done!22': False, 'dc_accepted!34': False, 'dc_accepted!29': False, 'data_connection_present!21': False, 'user_present!11': True, 'user_done!12': True, 'incoming!59': '', 'passive_server_done!20': True, 'logged_done!14': True, 'fsbool!37': True, 'writable!33': True, 'current_directory_present!15': True, 'current_directory_done!16': True, 'passive_server_present!19': True, 'consumed!60': '', 'incoming!23': '', 'logged_present!13': True, 'fileW!62': '', 'auth_ok!27': True}
+MODEL = {'data_connection_done!22': True, 'restart_offset!10': 1, 'block_size!0': 1, 'chunk!70': '', 'wait_future_timeout!41': '0/1', 'rest!71': '', 'dc_accepted!38': True, 'dc_accepted!43': False, 'dc_accepted!39': False, 'dc_accepted!35': False, 'dc_accepted!30': False, 'dc_accepted!34': False, 'dc_accepted!29': False, 'data_connection_present!21': False, 'user_present!11': True, 'user_done!12': True, 'incoming!59': '', 'passive_server_done!20': True, 'logged_done!14': True, 'fsbool!37': True, 'writable!33': True, 'current_directory_present!15': True, 'current_directory_done!16': True, 'passive_server_present!19': True, 'consumed!60': '', 'incoming!23': '', 'logged_present!13': True, 'fileW!62': '', 'auth_ok!27': True}
 SOLVER_NOTE = ''
 
 print("obligation", OBLIGATION, "failed; no concrete failing input could be constructed automatically")
